@@ -141,13 +141,8 @@ Definition val_fn (s : str) : option (vtag * Z) :=
   | None => None
   | Some (state, positive, value) =>
       match state with
-      | 0%nat | 1%nat => Some (TInt, 0)
-      | _ =>
-          if positive && (value <=? 32767) then Some (TInt, value)
-          else if negb positive && (value <=? 32768) then Some (TInt, - value)
-          else if positive && (value <=? 2147483647) then Some (TLong, value)
-          else if negb positive && (value <=? 2147483648) then Some (TLong, - value)
-          else Some (TDouble, if positive then value else - value)
+      | 0%nat | 1%nat => Some (TDouble, 0)
+      | _ => Some (TDouble, if positive then value else - value)
       end
   end.
 
